@@ -118,8 +118,9 @@ impl BadObj for O2 {
 }
 unsafe impl CastFrom<O2> for dyn BadObj {
     fn cast(_t: *mut O2) -> *mut Self {
-        let other: &'static mut O2 = Box::leak(Box::new(O2::new(99)));
-        other as *mut O2
+        // some other object of the same type (a static: nothing is leaked)
+        static mut OTHER: O2 = O2 { n: 99 };
+        std::ptr::addr_of_mut!(OTHER)
     }
 }
 
